@@ -98,7 +98,9 @@ def run(ctx):
     os.makedirs(work)
     # ---------------- K: path shapes x options ----------------
     shapes = [["A.qml"], ["./A.qml"], ["sub/B.qml"], ["sub/./B.qml"], ["./sub/deep/C.qml"], ["sub/../A.qml"], ["../outside/D.qml"], ["ABS:A.qml"],
-              ["A.qml", "sub/B.qml"], ["MyDialog.qml", "sub/deep/C.qml"], ["sub/B.qml", "A.qml", "./MyDialog.qml"], ["Mixed_Case9.qml"]]
+              ["A.qml", "sub/B.qml"], ["MyDialog.qml", "sub/deep/C.qml"], ["sub/B.qml", "A.qml", "./MyDialog.qml"], ["Mixed_Case9.qml"],
+              # stems with dots: the type (and output) name is the file name without its LAST extension
+              ["Settings.v2.qml"], ["MyDialog.qml", "MyDialog.ui.qml"], ["sub/Pane.left.qml", "sub/B.qml"]]
     outs = [None, "out", "out/nested/x", "./out", "ABSOUT", "../outside/o2"]
     terms, meta = [], []
     k = 0
@@ -113,7 +115,7 @@ def run(ctx):
                     cwd = os.path.join(base, "proj")
                     os.makedirs(os.path.join(cwd, "sub", "deep"))
                     os.makedirs(os.path.join(base, "outside"))
-                    for rel in ("A.qml", "sub/B.qml", "sub/deep/C.qml", "MyDialog.qml", "Mixed_Case9.qml", "../outside/D.qml"):
+                    for rel in ("A.qml", "sub/B.qml", "sub/deep/C.qml", "MyDialog.qml", "Mixed_Case9.qml", "../outside/D.qml", "Settings.v2.qml", "MyDialog.ui.qml", "sub/Pane.left.qml"):
                         open(os.path.join(cwd, rel), "w").write(DOC_DYN if dyn else DOC_STATIC % "s")
                     srcs = [s.replace("ABS:", cwd + "/") for s in shape]
                     o = out.replace("ABSOUT", os.path.join(base, "absout")) if out else None
@@ -141,6 +143,18 @@ def run(ctx):
                         if esc:
                             ctx.violation("a file was created outside the output directory %s: %r" % (o, esc), dict(rep, impl_output=err[-500:], theorem_or_correspondence="C15_confined / S"))
                             continue
+                    if rc == 0:
+                        # S: one .ui (and one support header) per source, named after the source file without its extension
+                        want = []
+                        for sp in srcs:
+                            stem = os.path.basename(sp)[:-len(".qml")]
+                            want += [stem + ".ui"] + (["uisupport_" + stem + ".h"] if dyn else [])
+                        want = sorted(n.lower() if lower else n for n in want)
+                        have = sorted(os.path.basename(c) for c in created)
+                        if have != want:
+                            ctx.violation("the run reports success but the files it created are %r; the sources call for %r" % (have, want),
+                                          dict(rep, impl_output=created, oracle_output=want, theorem_or_correspondence="S: one output pair per source, named after it / C15_outputs_confined"))
+                            continue
                     exp = "(%s, %s)" % ("true" if rc == 0 else "false", C.coq_list(["[" + "; ".join('"%s"' % x for x in c.split("/") if x) + "]" for c in created_in_order(created, srcs, lower)]))
                     case = "(%s, %s, %s, %s, %s)" % (comps(cwd), "true" if lower else "false", "true" if dyn else "false", "None" if not o else "(Some %s)" % comps(o),
                                                      C.coq_list(["(%s, \"%s\")" % (comps(s), os.path.basename(s)[:-4]) for s in srcs]))
@@ -153,7 +167,7 @@ def run(ctx):
     s_kill(ctx, cli, work, rng)
     shutil.rmtree(work, ignore_errors=True)
     ctx.coverage["compared_with_model"] = len(terms)
-    ctx.coverage["rule"] = ("12 source-argument shapes (plain, ./, nested, interior ., parent-escaping, outside, absolute, several sources, mixed case) x 6 output directories "
+    ctx.coverage["rule"] = ("15 source-argument shapes (plain, ./, nested, interior ., parent-escaping, outside, absolute, several sources, mixed case, dotted stems) x 6 output directories "
                             "(none, relative, nested, ./, absolute, parent-escaping) x lowercase on/off x dynamic binding on/off (half sampled in the quick tier); re-run, edit "
                             "sequences, strace of write-type system calls, kill at system-call index N")
     if not ctx.model_ok:
